@@ -698,7 +698,7 @@ func ruleC03RetrievalRegistered(c *Ctx) {
 				return
 			}
 			_, vs := c.accessPath(mu.Value)
-			if pathString(vs) == "Resolved.root" && len(guardsOf(mu)) == 0 {
+			if pathString(vs) == "Resolved.root" && len(guardsLocal(mu)) == 0 {
 				found = true
 				c.R.OK(rule, core.FuncName(fn)+":base-uri->root", c.pos(mu), "the retrieval/base URI is registered for the root unconditionally")
 			}
